@@ -30,7 +30,8 @@ ASSUMPTIONS = ['alpha, shift rational (every float is); phases multiples of 1/L 
                'Gaussian-integer input data; comparison tolerance 1e-9*(1+max|model|)']
 RULE = ('random dft2/idft2/round-trip cases: shapes 1..7 (odd, even, 1, non-square), alpha_r, alpha_c = p/q independent, '
         'shifts k/4 or k/2, offsets in [-6,6], both flags, out in {None, complex buffer, f itself, float buffer, wrong shape} (dft2 and idft2); '
-        'large inputs (sides 31..33, 63..67, 101, 127..129; full-period FFT-equivalent calls and general ones; oracle only: '
+        'every real input dtype (int64/32/8, uint8, bool, float64/32/16) through dft2 and idft2; structured inputs: a dense block in a grid of zeros at every (grid length <= 6/7, start, end) per axis, single lit samples, zero '
+        'rows/columns in the middle, real, constant, hermitian, sparse and all-zero data; large inputs (sides 31..33, 63..67, 101, 127..129; full-period FFT-equivalent calls and general ones; oracle only: '
         'vectorised defining sum with exact integer phase reduction); histories of 2-4 dft2/idft2 calls on one (input shape, output shape) pair alternating shifted and unshifted calls, each decided as if made first; '
         'non-trivial = m*n>1 and at least two of {alpha_r!=alpha_c, shift!=0, offset!=0, MxN!=mxn}')
 
@@ -63,6 +64,115 @@ def rnd_alpha(rng, n):
 
 def rnd_data(rng, m, n):
     return [[[rng.randint(-8, 8), rng.randint(-8, 8)] for _ in range(n)] for _ in range(m)]
+
+
+def nz(rng):
+    v = rng.randint(1, 8)
+    return v if rng.random() < 0.5 else -v
+
+
+def block_data(rng, m, n, r0, r1, c0, c1):
+    """a dense block (no zero sample) in rows r0..r1-1, cols c0..c1-1 of an m x n grid of zeros"""
+    return [[[nz(rng), rng.randint(-8, 8)] if r0 <= x < r1 and c0 <= y < c1 else [0, 0] for y in range(n)] for x in range(m)]
+
+
+def structured_data(rng, m, n):
+    """inputs a data-dependent fast path could single out: zero borders, a single lit sample, zero rows / columns in the
+    middle, real-valued, constant, hermitian, all-zero"""
+    kind = rng.choice(['block', 'block', 'single', 'midzero', 'real', 'constant', 'hermitian', 'zero', 'sparse'])
+    if kind == 'block':
+        r0 = rng.randint(0, m - 1); r1 = rng.randint(r0 + 1, m)
+        c0 = rng.randint(0, n - 1); c1 = rng.randint(c0 + 1, n)
+        return kind, block_data(rng, m, n, r0, r1, c0, c1)
+    if kind == 'single':
+        x, y = rng.randrange(m), rng.randrange(n)
+        return kind, block_data(rng, m, n, x, x + 1, y, y + 1)
+    f = rnd_data(rng, m, n)
+    if kind == 'midzero':
+        for x in rng.sample(range(m), rng.randint(0, max(0, m - 1))):
+            f[x] = [[0, 0] for _ in range(n)]
+        for y in rng.sample(range(n), rng.randint(0, max(0, n - 1))):
+            for x in range(m):
+                f[x][y] = [0, 0]
+    elif kind == 'real':
+        f = [[[v[0], 0] for v in row] for row in f]
+    elif kind == 'constant':
+        v = [nz(rng), rng.randint(-8, 8)]
+        f = [[list(v) for _ in range(n)] for _ in range(m)]
+    elif kind == 'hermitian':         # f(-x) = conj f(x) about the origin index floor(n/2) (where the index exists)
+        for x in range(m):
+            for y in range(n):
+                xs, ys = 2 * (m // 2) - x, 2 * (n // 2) - y
+                if 0 <= xs < m and 0 <= ys < n:
+                    if (xs, ys) == (x, y):
+                        f[x][y][1] = 0
+                    elif (xs, ys) > (x, y):
+                        f[xs][ys] = [f[x][y][0], -f[x][y][1]]
+    elif kind == 'zero':
+        f = [[[0, 0] for _ in range(n)] for _ in range(m)]
+    else:
+        f = [[v if rng.random() < 0.3 else [0, 0] for v in row] for row in f]
+    return kind, f
+
+
+def gen_blocks(rng, tier):
+    """a populated block inside a grid of zeros at EVERY (grid length, block start, block end) on one axis, paired with a
+    random interval on the other axis: every block parity x grid parity x position"""
+    top = 6 if tier == 'quick' else 7
+    ivs = [(g, a, b) for g in range(1, top + 1) for a in range(g) for b in range(a + 1, g + 1)]
+    for k, (g, a, b) in enumerate(ivs):
+        g2, a2, b2 = rng.choice(ivs)
+        if k % 2:
+            m, r0, r1, n, c0, c1 = g, a, b, g2, a2, b2
+        else:
+            m, r0, r1, n, c0, c1 = g2, a2, b2, g, a, b
+        for _ in range(50):
+            op = rng.choice(['dft2', 'dft2', 'dft2', 'idft2', 'roundtrip'])
+            if op == 'roundtrip':
+                c = {'op': 'roundtrip', 'ar': str(Fraction(1, m)), 'ac': str(Fraction(1, n)), 'M': m, 'N': n,
+                     'unitary': rng.random() < 0.5}
+            else:
+                M, N = (m, n) if rng.random() < 0.4 else (rng.randint(1, top), rng.randint(1, top))
+                c = {'op': op, 'ar': str(rnd_alpha(rng, m)), 'ac': str(rnd_alpha(rng, n)), 'M': M, 'N': N,
+                     'shr': str(Fraction(rng.randint(-6, 6), rng.choice([1, 1, 2, 4]))) if rng.random() < 0.4 else '0',
+                     'shc': str(Fraction(rng.randint(-6, 6), rng.choice([1, 1, 2, 4]))) if rng.random() < 0.4 else '0',
+                     'unitary': rng.random() < 0.5, 'out': 'none'}
+                if op == 'dft2':
+                    c['offr'] = rng.randint(-6, 6) if rng.random() < 0.4 else 0
+                    c['offc'] = rng.randint(-6, 6) if rng.random() < 0.4 else 0
+            if case_L(c) <= 96:
+                break
+        c['f'] = block_data(rng, m, n, r0, r1, c0, c1)
+        c['data'] = 'block'
+        yield c
+
+
+REAL_DTYPES = ['int64', 'int32', 'int8', 'uint8', 'bool_', 'float64', 'float32', 'float16']
+
+
+def gen_dtypes(rng, tier, maxn):
+    """every real input dtype through dft2 and idft2 (paths that depend on the dtype of the input are a class)"""
+    for rep in range(2 if tier == 'quick' else 12):
+        for op in ('dft2', 'idft2'):
+            for dt in REAL_DTYPES:
+                for _ in range(50):
+                    m, n = rng.randint(1, maxn), rng.randint(1, maxn)
+                    if m * n == 1 and rng.random() < 0.8:
+                        continue
+                    M, N = (m, n) if rng.random() < 0.4 else (rng.randint(1, maxn), rng.randint(1, maxn))
+                    c = {'op': op, 'ar': str(rnd_alpha(rng, m)), 'ac': str(rnd_alpha(rng, n)), 'M': M, 'N': N,
+                         'shr': str(Fraction(rng.randint(-6, 6), rng.choice([1, 2, 4]))) if rng.random() < 0.3 else '0',
+                         'shc': str(Fraction(rng.randint(-6, 6), rng.choice([1, 2, 4]))) if rng.random() < 0.3 else '0',
+                         'unitary': rng.random() < 0.5, 'out': rng.choice(['none', 'none', 'complex']),
+                         'forms': 'dtype:' + dt}
+                    if op == 'dft2':
+                        c['offr'] = rng.randint(-4, 4) if rng.random() < 0.3 else 0
+                        c['offc'] = rng.randint(-4, 4) if rng.random() < 0.3 else 0
+                    if case_L(c) <= 96:
+                        break
+                lo, hi = (0, 1) if dt == 'bool_' else (0, 8) if dt == 'uint8' else (-8, 8)
+                c['f'] = [[[rng.randint(lo, hi), 0] for _ in range(n)] for _ in range(m)]
+                yield c
 
 
 def gen_history(rng, maxn):
@@ -133,9 +243,18 @@ def generate(rng, tier):
     n_cases = 160 if tier == 'quick' else 2500
     maxn = 6 if tier == 'quick' else 7
     for k in range(12 if tier == 'quick' else 120):
-        yield gen_large(rng, k)
+        c = gen_large(rng, k)
+        if k % 3 == 2:              # zero borders at large sizes as well
+            r0 = rng.randint(0, c['m'] // 2); r1 = rng.randint(r0 + 1, c['m'])
+            c0 = rng.randint(0, c['n'] // 2); c1 = rng.randint(c0 + 1, c['n'])
+            c['block'] = [r0, r1, c0, c1]
+        yield c
     for _ in range(40 if tier == 'quick' else 400):
         yield gen_history(rng, maxn)
+    for c in gen_blocks(rng, tier):
+        yield c
+    for c in gen_dtypes(rng, tier, maxn):
+        yield c
     out = 0
     while out < n_cases:
         t = rng.random()
@@ -163,6 +282,8 @@ def generate(rng, tier):
         else:
             c = {'op': 'roundtrip', 'f': rnd_data(rng, m, n), 'ar': str(Fraction(1, m)), 'ac': str(Fraction(1, n)),
                  'M': m, 'N': n, 'unitary': rng.random() < 0.5}
+        if rng.random() < 0.3:          # structured inputs (data-dependent fast paths are a class)
+            c['data'], c['f'] = structured_data(rng, m, n)
         if c['op'] in ('dft2', 'idft2') and c.get('out') != 'self' and rng.random() < 0.25:
             # the documented argument forms: scalar alpha / shape, ndarray or list arguments, array_like (list, integer) input
             c['forms'] = rng.choice(['scalar', 'scalar', 'ndarray', 'list_input', 'int_input'])
@@ -186,7 +307,7 @@ def classify(c):
     if c['op'] == 'hist':
         return 'hist/' + '-'.join(cl['fn'] + ('*' if Fraction(cl['shr']) != 0 or Fraction(cl['shc']) != 0 else '') for cl in c['calls'])
     return (c['op'] + ('/' + c.get('out', 'none') if c['op'] in ('dft2', 'idft2') else '') + ('/unitary' if c.get('unitary') else '')
-            + ('/' + c['forms'] if c.get('forms') else ''))
+            + ('/' + c['forms'] if c.get('forms') else '') + ('/data:' + c['data'] if c.get('data') else ''))
 
 
 def nontrivial(c):
@@ -324,7 +445,14 @@ class Big(str):
 def large_data(c):
     g = np.random.default_rng(c['seed'])
     d = g.integers(-8, 9, size=(2, c['m'], c['n']))
-    return (d[0] + 1j * d[1]).astype(complex)
+    f = (d[0] + 1j * d[1]).astype(complex)
+    if c.get('block'):               # a populated block (no zero sample) in a grid of zeros
+        r0, r1, c0, c1 = c['block']
+        f[f == 0] = 1.0
+        keep = np.zeros(f.shape, dtype=bool)
+        keep[r0:r1, c0:c1] = True
+        f[~keep] = 0
+    return f
 
 
 def run_large(lentil, c):
@@ -418,6 +546,8 @@ def call_forms(c, f):
         f = [[complex(v) for v in row] for row in f]
     elif form == 'int_input':
         f = np.array([[int(v[0]) for v in row] for row in c['f']], dtype=np.int64)
+    elif form.startswith('dtype:'):          # a real-valued input array of the given dtype
+        f = np.array([[v[0] for v in row] for row in c['f']]).astype(getattr(np, form[6:]))
     return f, alpha, shape, shift, offset
 
 
